@@ -109,6 +109,17 @@ func (s SuffrageProof) Prove(previousState base.State) error {
 		}
 	}
 
+	// NOTE the proof should lead to the states tree root of the manifest;
+	// a proof of foreign tree proves nothing about this block.
+	switch nodes := s.proof.Nodes(); {
+	case len(nodes) < 1:
+		return e.Errorf("empty proof")
+	case nodes[len(nodes)-1] == nil,
+		nodes[len(nodes)-1].Hash() == nil,
+		!nodes[len(nodes)-1].Hash().Equal(s.m.Manifest().StatesTree()):
+		return e.Errorf("root of proof does not match with states tree of manifest")
+	}
+
 	if err := s.proof.Prove(s.st.Hash().String()); err != nil {
 		return e.WithMessage(err, "prove suffrage")
 	}
